@@ -5,5 +5,5 @@ From Coq Require Import ExtrOcamlBasic.
 From C04 Require Import Model.
 Extraction Language OCaml.
 Cd "ocaml".
-Extraction "model.ml" zio_nat initZ lift mone one conv_int conv_flt i8 u8 i16 u16 i32 u32 i64 u64.
+Extraction "model.ml" zio_nat initZ ex_tail lift mone one conv_int conv_flt i8 u8 i16 u16 i32 u32 i64 u64.
 Cd "..".
